@@ -84,7 +84,7 @@ def wiringOk : Bool :=
   sortedEventsSrc == "lexsort(E_TYPE_ID,E_ANG_ID)" && lexsortKeys == ["E_TYPE_ID", "E_ANG_ID"] &&
   eventRctsSrc == ("sorted[:, :3]", "int64") && eventAesSrc == ("sorted[:, 3:]", "float64") &&
   rangeChecks == [("x", "ValueError"), ("y", "ValueError")] &&
-  viewpointElevSrc == "raster.values[obs:row, obs:col] + observer_elev" &&
+  viewpointElevSrc == "float(raster.values[obs:row, obs:col]) + observer_elev" &&
   viewpointTargetSrc == "target_elev if target_elev > 0 else 0.0" &&
   rasterCast == "raster.values.astype(np.float64)" && rasterCastBeforeInit
 
